@@ -36,6 +36,99 @@ func runC12(c *Ctx) {
 	c12Nth(c)
 	c12Unmarshal(c)
 	c12ReportPlumbing(c)
+	c12RenderOwned(c)
+}
+
+// c12RenderOwned: a rendering handed out by MarshalJSON shows the counts at the time of the call
+// for as long as the caller keeps it. It therefore must not be (a re-slice of) storage held in the
+// histogram itself, which the next rendering would overwrite.
+func c12RenderOwned(c *Ctx) {
+	const rule = "the bytes returned by Histogram.MarshalJSON are not backed by a field of the histogram (a reused scratch buffer would change a rendering the caller kept)"
+	fn := c.P.Func("lib", "Histogram.MarshalJSON")
+	key := "render-owned:(*lib.Histogram).MarshalJSON"
+	if fn == nil {
+		c.Undecided(key, rule, "Histogram.MarshalJSON not found")
+		return
+	}
+	var bad []ssa.Instruction
+	n := 0
+	eachInstr(fn, func(i ssa.Instruction) {
+		r, ok := i.(*ssa.Return)
+		if !ok || len(r.Results) == 0 {
+			return
+		}
+		n++
+		if flowsFromOwnField(r.Results[0], fn) {
+			bad = append(bad, r)
+		}
+	})
+	if n == 0 {
+		c.Undecided(key, rule, "no return")
+		return
+	}
+	c.Check(len(bad) == 0, key, rule, "returned bytes are not backed by receiver storage", "MarshalJSON returns (a slice of) a buffer kept in the histogram: the next call overwrites a rendering the caller still holds", c.atsOr(bad, fn)...)
+}
+
+// flowsFromOwnField: v is, or is re-sliced / appended from, a slice loaded from a field of fn's receiver.
+func flowsFromOwnField(v ssa.Value, fn *ssa.Function) bool {
+	if len(fn.Params) == 0 {
+		return false
+	}
+	recv := fn.Params[0]
+	seen := map[ssa.Value]bool{}
+	var rec func(v ssa.Value, depth int) bool
+	rec = func(v ssa.Value, depth int) bool {
+		if v == nil || seen[v] || depth > 12 {
+			return false
+		}
+		seen[v] = true
+		switch x := v.(type) {
+		case *ssa.UnOp:
+			if x.Op != token.MUL {
+				return false
+			}
+			if fa, isFA := x.X.(*ssa.FieldAddr); isFA {
+				base := fa.X
+				if ld, isL := isLoad(base); isL {
+					base = ld.X
+				}
+				if base == ssa.Value(recv) {
+					_, isSlice := x.Type().Underlying().(*types.Slice)
+					return isSlice
+				}
+				if al, isAl := base.(*ssa.Alloc); isAl { // spilled receiver
+					for _, r := range refs(al) {
+						if st, isSt := r.(*ssa.Store); isSt && st.Addr == ssa.Value(al) && st.Val == ssa.Value(recv) {
+							_, isSlice := x.Type().Underlying().(*types.Slice)
+							return isSlice
+						}
+					}
+				}
+			}
+			if al, isAl := x.X.(*ssa.Alloc); isAl {
+				for _, r := range refs(al) {
+					if st, isSt := r.(*ssa.Store); isSt && st.Addr == ssa.Value(al) && rec(st.Val, depth+1) {
+						return true
+					}
+				}
+			}
+		case *ssa.Slice:
+			return rec(x.X, depth+1)
+		case *ssa.Phi:
+			for _, e := range x.Edges {
+				if rec(e, depth+1) {
+					return true
+				}
+			}
+		case *ssa.Call:
+			n := callName(&x.Call)
+			if n == "builtin:append" || strings.HasPrefix(n, "strconv.Append") || n == "encoding/base64.(*Encoding).AppendEncode" {
+				return rec(x.Call.Args[0], depth+1)
+			}
+		}
+		return false
+	}
+	return rec(v, 0)
 }
 
 func c12ExactlyOne(c *Ctx, add *ssa.Function) {
